@@ -40,14 +40,32 @@ Fixpoint const_val (e : expr) : option value :=
       | OSub, Some (VFloat x), Some (VFloat y) => Some (VFloat (fl_add x (fl_neg y)))
       | _, _, _ => None
       end
+  | EConst _ v => Some v      (* a named constant: TypesInfo.Types[e].Value is its declared value *)
   | _ => None
   end.
+
+(* ---------- what go/types says about the type of an operand beyond the underlying model type ---------- *)
+Fixpoint kind_of (e : expr) : vkind :=
+  match e with
+  | EVarK _ k _ | ESel _ _ k _ => k
+  | EParen x | EUnary UNeg x => kind_of x
+  | EBinary o l r =>
+      if is_cmp o then KPlain
+      else match o with
+           | OLAnd | OLOr => KPlain
+           | OShl | OShr => kind_of l
+           | _ => match kind_of l with KPlain => kind_of r | k => k end   (* the other operand may be an untyped constant *)
+           end
+  | ESliceAll x => match kind_of x with KArr => KPlain | k => k end
+  | _ => KPlain
+  end.
+Definition is_plain (k : vkind) : bool := match k with KPlain => true | _ => false end.
 
 (* ---------- badCond.lessAndGreater ---------- *)
 (* typep.SideEffectFree on the original, typed AST: conversions are the only accepted calls *)
 Fixpoint sef_typed (e : expr) : bool :=
   match e with
-  | EIdent _ _ | ELit _ _ _ => true
+  | EIdent _ _ | ELit _ _ _ | EVarK _ _ _ | ESel _ _ _ _ | EConst _ _ => true
   | EParen x | EUnary _ x | ESliceAll x => sef_typed x
   | EBinary _ l r => sef_typed l && sef_typed r
   | EIndex a i => sef_typed a && sef_typed i
@@ -106,30 +124,44 @@ Definition sloppy_len_claim (e : expr) : option bool :=
 Definition off_by1 (e : expr) : bool :=
   match e with
   | EIndex x (ECall (FPrim PLen) [x']) =>
-      expr_eqb x x' && rg_pure x && match typeof x with Some TInts | Some TBytes => true | _ => false end
+      expr_eqb x x' && rg_pure x && (match typeof x with Some TInts | Some TBytes => true | _ => false end && is_plain (kind_of x))
   | _ => false
   end.
 
 (* ---------- dupSubExpr ---------- *)
 Definition dup_op (o : binop) : bool :=
-  match o with OLOr | OLAnd | OLt | OGt | ORem | OEq | ONe | OLe | OGe | OQuo | OSub => true | _ => false end.
+  match o with OLOr | OLAnd | OLt | OGt | ORem | OEq | ONe | OLe | OGe | OQuo | OSub | OOr | OAnd | OXor | OAndNot => true | _ => false end.
 Definition dup_float_op (o : binop) : bool :=
   match o with OEq | ONe | OLe | OGe | OQuo | OSub => true | _ => false end.
 Definition dup_sub_expr (e : expr) : bool :=
   match e with
   | EBinary o x y =>
-      dup_op o && negb (is_float_ty (typeof x) && dup_float_op o) && sef_typed e && expr_eqb x y
+      (* resultIsFloat: the operand's type is a *types.Basic float (a defined float type is not) *)
+      dup_op o && negb (is_float_ty (typeof x) && is_plain (kind_of x) && dup_float_op o) && sef_typed e && expr_eqb x y
   | _ => false
   end.
 
 (* ---------- dupArg (rules.go): `strings.Contains($x, $x)` ... with the .Pure filter; the functions of
    the rule's list that the fragment models ---------- *)
 Definition dup_arg_prim (p : prim) : bool :=
-  match p with PStrIndex | PStrContains | PStrCompare | PBytesEqual => true | _ => false end.
-Definition dup_arg (e : expr) : bool :=
-  match e with
-  | ECall (FPrim p) [x; y] => dup_arg_prim p && expr_eqb x y && rg_pure x
+  match p with
+  | PStrIndex | PStrContains | PStrCompare | PBytesEqual
+  | PStrHasPrefix | PStrHasSuffix | PStrLastIndex | PStrEqualFold
+  | PBytesIndex | PBytesContains | PBytesCompare | PBytesHasPrefix | PBytesHasSuffix | PBytesLastIndex | PBytesEqualFold => true
   | _ => false
+  end.
+(* `strings.Replace($_, $x, $x, $_)`, `strings.ReplaceAll($_, $x, $x)` and the bytes forms: the duplicated pair (old, new) *)
+Definition dup_arg_pair (e : expr) : option (expr * expr) :=
+  match e with
+  | ECall (FPrim p) [x; y] => if dup_arg_prim p then Some (x, y) else None
+  | ECall (FPrim PStrReplace) [_; x; y; _] | ECall (FPrim PBytesReplace) [_; x; y; _]
+  | ECall (FPrim PStrReplaceAll) [_; x; y] | ECall (FPrim PBytesReplaceAll) [_; x; y] => Some (x, y)
+  | _ => None
+  end.
+Definition dup_arg (e : expr) : bool :=
+  match dup_arg_pair e with
+  | Some (x, y) => expr_eqb x y && rg_pure x
+  | None => false
   end.
 
 (* ---------- nilValReturn (nilValReturn_checker.go): `if x == nil { return .., x, .. }` ----------
@@ -213,7 +245,7 @@ Definition impl_trans_on (impl : N -> N -> bool) (es : list entry) : Prop :=
 Fixpoint walk_claims (f : expr -> list string) (e : expr) {struct e} : list string :=
   (f e ++
    match e with
-   | EIdent _ _ | ELit _ _ _ => []
+   | EIdent _ _ | ELit _ _ _ | EVarK _ _ _ | ESel _ _ _ _ | EConst _ _ => []
    | EParen x | EUnary _ x | ESliceAll x => walk_claims f x
    | EBinary _ l r => walk_claims f l ++ walk_claims f r
    | ECall _ args => flat_map (walk_claims f) args
@@ -286,7 +318,7 @@ Definition off_by1_by_name (e : expr) : bool :=
   match e with
   | EIndex x c =>
       match spelled_len c with
-      | Some x' => expr_eqb x x' && rg_pure x && match typeof x with Some TInts | Some TBytes => true | _ => false end
+      | Some x' => expr_eqb x x' && rg_pure x && (match typeof x with Some TInts | Some TBytes => true | _ => false end && is_plain (kind_of x))
       | None => false
       end
   | _ => false
